@@ -685,6 +685,23 @@ func (x *pmRun) deliver(st Step) {
 		}
 		buf, err := rlp.EncodeToBytes(&txs)
 		if err == nil && p.send(p2p.TxsMsg, buf) {
+			inChain, known, fresh := 0, 0, 0
+			for _, i := range st.Txs {
+				if i >= 0 && i < len(x.cs.Txs) {
+					if x.cs.Txs[i].Kind == "in-chain" {
+						inChain++
+						if x.V.BC.TxGuard().ExistTx(x.V.BC.CurrentBlock().Hash(), x.txs[i]) {
+							known++
+						}
+					} else if x.cs.Txs[i].valid() {
+						fresh++
+					}
+				}
+			}
+			x.c.Stat("pm_in_chain_txs_sent", int64(inChain))
+			if known > 0 && fresh > 0 {
+				x.c.Stat("pm_batches_with_fresh_txs_and_txs_already_on_the_branch", 1)
+			}
 			x.c.Stat("pm_txs_msgs", 1)
 			x.c.Stat("pm_txs_sent", int64(len(txs)))
 			x.c.Seen("pm_tx_batch_sizes", fmt.Sprint(len(txs)))
@@ -800,6 +817,16 @@ func execPM(c *run.Ctx, vs *violSink, cs *PMCase) {
 	// 4. transactions (expirations relative to now)
 	now := uint64(time.Now().Unix())
 	for _, s := range cs.Txs {
+		if s.Kind == "in-chain" {
+			// a transaction of a block of the segment (still valid by the wall clock): whether it is in the pool at the
+			// end depends on the order of its batch and its block and is not judged; the fresh ones of its batch are
+			if s.From >= 0 && s.From < len(x.blocks) && s.To >= 0 && s.To < len(x.blocks[s.From].Txs) {
+				x.txs = append(x.txs, x.blocks[s.From].Txs[s.To])
+			} else {
+				x.txs = append(x.txs, buildTx(w, TxSpec{Kind: "expired", Life: -100}, now))
+			}
+			continue
+		}
 		x.txs = append(x.txs, buildTx(w, s, now))
 	}
 
